@@ -122,7 +122,7 @@ char *verif_strdup(const char *s);
 #define VERIF_LOW(n) ((n) >= 32 ? 0xffffffffu : ((1u << (n)) - 1u))
 #define REPROC_VERIF_LOOP_close_all                                            \
   __CPROVER_assigns(i, r, g.os_calls, g.open, g.lib, g.cloexec, g.nonblock, g.rd, g.wr, \
-                    g.obj, g.err, g.faults, g.first_errno) \
+                    g.obj, g.err, g.faults, g.first_errno, g.last_fault) \
   __CPROVER_loop_invariant(0 <= i && i <= max_fd + 1 &&                        \
                            (g.open & VERIF_LOW(i) & ~VERIF_KEEP_MASK) == 0 &&  \
                            (g.open & (VERIF_KEEP_MASK | ~VERIF_LOW(i))) ==     \
